@@ -73,10 +73,18 @@ package dsl
 //@ func UnmarshalTypeDefinition
 //@   entry
 //@   requires value != nil && definitionMeta != nil
+// Termination of the two type unmarshalers that call each other (C10: never a stack overflow). A yaml.v3 document is
+// a finite tree over Content (library fact, trusted): every child is lower than its parent. A node tagged `!!seq`
+// goes from UnmarshalTypeYAML to UnmarshalTypeCases; UnmarshalTypeCases hands the children of a sequence, or a single
+// node that is not a sequence, back to UnmarshalTypeYAML - which must not be a node that comes straight back.
+//@ spec func nodeHeight(n *yaml.Node) int
+//@ type-invariant *yaml.Node n :: nodeHeight(n) >= 0
+//@ child-invariant yaml.Node.Content c n :: nodeHeight(c) < nodeHeight(n)
 //@ func UnmarshalTypeYAML
 //@   entry
 //@   property C10
 //@   requires value != nil
+//@   decreases 3 * nodeHeight(value) + ite(value.Tag == "!!seq", 2, 0)
 //@   ensures nil_type_only_for_a_null_node: result1 == nil && value.Tag != "!!null" ==> result0 != nil
 //@ func UnmarshalUnionYAML
 //@   entry
@@ -85,7 +93,9 @@ package dsl
 //@   ensures result1 == nil ==> result0 != nil
 //@ func UnmarshalTypeCases
 //@   entry
+//@   property C10
 //@   requires value != nil
+//@   decreases 3 * nodeHeight(value) + 1
 //@ func UnmarshalGenericNode
 //@   entry
 //@   property C10
@@ -145,6 +155,15 @@ package dsl
 //@   requires value != nil
 //@   ensures result1 == nil ==> result0 != nil
 //@   invariant 1: len(vals) * 2 == i && (forall k in 0..len(vals) :: vals[k] != nil)
+// C13/C09: both spellings of the value list take the same symbols. A symbol is a YAML string in the list form and
+// in the map form alike (`true`, `null`, `1` are not symbols in either): an entry that gets past the loop body has one.
+//@   property C13,C09,C10
+//@   iteration 0: a_listed_symbol_is_a_string: v.Tag == "!!str"
+//@   iteration 1: a_mapped_symbol_is_a_string: k.Tag == "!!str"
+// (values are read with big.Int, which also takes the integers yaml.v3 tags as strings or floats because they do not
+// fit in 64 bits; what big.Int refuses is a located error, not the library's message without a position)
+//@   invariant 1: !errSeen("math/big.(*Int).UnmarshalText")
+//@   ensures a_malformed_value_is_a_located_error: errSeen("math/big.(*Int).UnmarshalText") ==> typeof(result1) == validation.ValidationError
 // C11/C09: a package is accepted only if every model file in it satisfies the rules. A directory walk that fails
 // (a sub-directory that cannot be read, a file that vanished) has not seen every model file: it is an error of the
 // command, not a log line followed by a model made of the files that could be listed.
@@ -249,12 +268,19 @@ package dsl
 //@   ensures not_fixed_means_some_missing: !result ==> a.Dimensions == nil || (exists k in 0..len(*a.Dimensions) :: (*a.Dimensions)[k].Length == nil)
 
 // Alias-transparent primitive lookup. "pure": the result depends only on the argument and the (unmodified) model.
+// A reference that resolves to a primitive is its own underlying type, and that primitive is its primitive type; an
+// alias is looked through (what the generators rely on when they name the target of an `as` conversion).
+//@ spec func refToPrimitive(t Type) bool = typeof(t) == *SimpleType && t.(*SimpleType) != nil && typeof(t.(*SimpleType).ResolvedDefinition) == PrimitiveDefinition
+//@ spec func refToAlias(t Type) bool = typeof(t) == *SimpleType && t.(*SimpleType) != nil && typeof(t.(*SimpleType).ResolvedDefinition) == *NamedType && t.(*SimpleType).ResolvedDefinition.(*NamedType) != nil
 //@ func GetPrimitiveType
 //@   pure
 //@   stable
+//@   ensures primitive_reference_is_its_primitive: refToPrimitive(t) ==> result1 && result0 == t.(*SimpleType).ResolvedDefinition.(PrimitiveDefinition)
 //@ func GetUnderlyingType
 //@   pure
 //@   stable
+//@   ensures primitive_reference_is_its_own_underlying_type: refToPrimitive(t) ==> result == t
+//@   ensures alias_is_looked_through: refToAlias(t) && GetUnderlyingType(t.(*SimpleType).ResolvedDefinition.(*NamedType).Type) != nil ==> result == GetUnderlyingType(t.(*SimpleType).ResolvedDefinition.(*NamedType).Type)
 
 // ---- C06: evolution verdicts match the documented classes (docs/cpp/evolution.md) -----------------------
 //@ spec func isIntPrim(p PrimitiveDefinition) bool = p == Int8 || p == Int16 || p == Int32 || p == Int64 || p == Uint8 || p == Uint16 || p == Uint32 || p == Uint64 || p == Size
@@ -512,10 +538,12 @@ package dsl
 //@ func validateMaps$1
 //@   property C09
 //@   requires errorSink != nil
-//@   ensures everything_but_maps_descends: typeof(node) != *Map ==> called("dsl.(Visitor).VisitChildren")
+// (a reference is checked once, see validateUnionCases: the memo holds the references met so far)
+//@   ensures everything_but_maps_descends: typeof(node) != *Map && !(typeof(node) == *SimpleType && old(node.(*SimpleType) in seenReferences)) ==> called("dsl.(Visitor).VisitChildren")
+//@   ensures a_reference_is_marked_checked: typeof(node) == *SimpleType && node.(*SimpleType) != nil ==> (node.(*SimpleType) in seenReferences)
 //@   ensures non_primitive_key_is_an_error: typeof(node) == *Map && node.(*Map) != nil && !keyIsPrimitive(node.(*Map)) && !keyIsTypeParameter(node.(*Map)) ==> len(errorSink.Errors) == old(len(errorSink.Errors)) + 1
 //@   ensures primitive_key_is_accepted: typeof(node) == *Map && node.(*Map) != nil && (keyIsPrimitive(node.(*Map)) || keyIsTypeParameter(node.(*Map))) ==> len(errorSink.Errors) == old(len(errorSink.Errors))
-//@   ensures instantiated_generics_are_checked: typeof(node) == *SimpleType && node.(*SimpleType) != nil && node.(*SimpleType).ResolvedDefinition != nil && len(node.(*SimpleType).ResolvedDefinition.GetDefinitionMeta().TypeArguments) > 0 ==> called("dsl.(Visitor).Visit")
+//@   ensures instantiated_generics_are_checked: typeof(node) == *SimpleType && node.(*SimpleType) != nil && !old(node.(*SimpleType) in seenReferences) && node.(*SimpleType).ResolvedDefinition != nil && len(node.(*SimpleType).ResolvedDefinition.GetDefinitionMeta().TypeArguments) > 0 ==> called("dsl.(Visitor).Visit")
 
 // Array dimension rules are checked on every array, and the pass always descends (arrays nest inside vectors, maps ...).
 //@ spec func arrDimsOf(n Node) *ArrayDimensions = n.(*Array).Dimensions
@@ -661,9 +689,15 @@ package dsl
 //@   ensures always_descends: called("dsl.(VisitorWithContext[*visitorContext]).VisitChildren")
 //@   ensures every_reference_is_resolved: typeof(node) == *SimpleType ==> called(resolveType)
 //@   ensures unresolved_reference_is_an_error: typeof(node) == *SimpleType && errSeen(resolveType) ==> called("validation.(*ErrorSink).Add")
+// C10 (terminates promptly): the pass descends below every node exactly once. A node whose children are visited twice
+// doubles the work at every level of nesting: `G<G<...G<int>...>>` 26 levels deep took longer than 20 s, and every
+// diagnostic below such a node was printed twice.
+//@   property C10,C09
+//@   ensures children_are_visited_once: calls("dsl.(VisitorWithContext[*visitorContext]).VisitChildren") == 1
 //@ func convertGenericReferences$1
-//@   property C09
+//@   property C10,C09
 //@   requires errorSink != nil
+//@   ensures children_are_visited_once: calls("dsl.(VisitorWithContext[visitorContext]).VisitChildren") == 1
 //@   ensures always_descends: called("dsl.(VisitorWithContext[visitorContext]).VisitChildren")
 //@   ensures every_reference_is_resolved: typeof(node) == *SimpleType ==> called(resolveType)
 //@   ensures unresolved_reference_is_an_error: typeof(node) == *SimpleType && errSeen(resolveType) ==> called("validation.(*ErrorSink).Add")
@@ -684,7 +718,14 @@ package dsl
 //@ func validateUnionCases$1
 //@   property C09
 //@   requires errorSink != nil
-//@   ensures always_descends: called("dsl.(VisitorWithContext[bool]).VisitChildren")
+// A reference is checked once: a type argument is reached a second time through the instantiated definition of the
+// generic type it is given to (checking it again at every level doubled the work per level of `G<G<...>>`). The memo
+// says for every reference met so far whether it was checked as written; a reference checked only inside an
+// instantiated definition is checked again when it is met as written (the as-written visit checks more).
+//@ spec func checkedBefore(n Node, seen map[*SimpleType]bool, inReference bool) bool = typeof(n) == *SimpleType && (n.(*SimpleType) in seen) && (seen[n.(*SimpleType)] || inReference)
+//@   ensures always_descends: !old(checkedBefore(node, seenReferences, visitingReference)) ==> called("dsl.(VisitorWithContext[bool]).VisitChildren")
+//@   ensures a_reference_is_marked_checked: typeof(node) == *SimpleType && node.(*SimpleType) != nil ==> (node.(*SimpleType) in seenReferences) && (!visitingReference ==> seenReferences[node.(*SimpleType)])
+//@   ensures instantiated_generics_are_checked_too: typeof(node) == *SimpleType && node.(*SimpleType) != nil && !old(checkedBefore(node, seenReferences, visitingReference)) && len(node.(*SimpleType).ResolvedDefinition.GetDefinitionMeta().TypeArguments) > 0 ==> called("dsl.(VisitorWithContext[bool]).Visit")
 // "unions may not immediately contain other unions" is about a case that is itself a union or optional. A case that is
 // a vector, array, map or stream whose element type is a union (`int?*`, `!vector {items: [null, int]}`) is not: the
 // two spellings build different trees (the expanded form keeps the element cases on the collection node itself), and
@@ -712,7 +753,19 @@ package dsl
 // `fooBAR` both become `foo_bar`) cannot both be declared: a field whose generated name equals that of an earlier,
 // differently spelled field is an error
 //@   iteration 0: fields_with_the_same_generated_name_are_an_error: forall k in 0..rangeindex :: (formatting.ToSnakeCase(record.Fields[k].Name) == formatting.ToSnakeCase(field.Name) && record.Fields[k].Name != field.Name ==> len(errorSink.Errors) > old(len(errorSink.Errors)))
-//@   invariant 1: (forall k in 0..len(record.Fields) :: (record.Fields[k].Name in fields)) && (forall k in 0..rangeindex+1 :: (record.ComputedFields[k].Name in fields))
+//@   invariant 1: forall k in 0..len(record.Fields) :: (record.Fields[k].Name in fields)
+//@   invariant 1: forall k in 0..rangeindex+1 :: (record.ComputedFields[k].Name in fields)
+// a computed field is a method named like a field would be in Python and MATLAB: it may not take the generated name
+// of a field or of an earlier computed field that is spelled differently (`aBC` next to `aBc`: both `a_bc`)
+//@   invariant 1: forall k in 0..len(record.Fields) :: (formatting.ToSnakeCase(record.Fields[k].Name) in generatedNames)
+//@   invariant 1: forall k in 0..len(record.Fields) :: (generatedNames[formatting.ToSnakeCase(record.Fields[k].Name)] in fields)
+//@   invariant 1: forall k in 0..rangeindex+1 :: (formatting.ToSnakeCase(record.ComputedFields[k].Name) in generatedNames)
+//@   invariant 1: forall k in 0..rangeindex+1 :: (generatedNames[formatting.ToSnakeCase(record.ComputedFields[k].Name)] in fields)
+// (stated over the bookkeeping map, because the solvers do not finish the version that quantifies over the fields: the
+// invariants above say that the map holds the generated name of every field and that its values are spellings found in
+// `fields`; together with this clause they give "no field of another spelling has the same generated name")
+//@   iteration 1: computed_field_with_the_generated_name_of_a_field_is_an_error: old((formatting.ToSnakeCase(field.Name) in generatedNames) && generatedNames[formatting.ToSnakeCase(field.Name)] != field.Name) ==> len(errorSink.Errors) > old(len(errorSink.Errors))
+//@   iteration 1: computed_fields_with_the_same_generated_name_are_an_error: forall k in 0..rangeindex :: (formatting.ToSnakeCase(record.ComputedFields[k].Name) == formatting.ToSnakeCase(field.Name) && record.ComputedFields[k].Name != field.Name ==> len(errorSink.Errors) > old(len(errorSink.Errors)))
 //@   iteration 1: badly_cased_computed_field_is_an_error: !lastResult("regexp.(*Regexp).MatchString") ==> len(errorSink.Errors) > old(len(errorSink.Errors))
 //@   iteration 1: repeated_computed_field_name_is_an_error: old(field.Name in fields) ==> len(errorSink.Errors) > old(len(errorSink.Errors))
 //@ func validateProtocolSequenceNames$1
@@ -722,6 +775,11 @@ package dsl
 //@   invariant 0: forall k in 0..rangeindex+1 :: (protocol.Sequence[k].Name in steps)
 //@   iteration 0: badly_cased_step_is_an_error: !lastResult("regexp.(*Regexp).MatchString") ==> len(errorSink.Errors) > old(len(errorSink.Errors))
 //@   iteration 0: repeated_step_name_is_an_error: old(step.Name in steps) ==> len(errorSink.Errors) > old(len(errorSink.Errors))
+// the read and write methods of a step are named after its snake_cased name in Python and MATLAB (`write_foo_bar` for
+// `fooBar` and for `fooBAR`): two steps whose generated names coincide cannot both be declared
+//@   invariant 0: forall k in 0..rangeindex+1 :: (formatting.ToSnakeCase(protocol.Sequence[k].Name) in generatedNames)
+//@   invariant 0: forall k in 0..rangeindex+1 :: (generatedNames[formatting.ToSnakeCase(protocol.Sequence[k].Name)] in steps)
+//@   iteration 0: steps_with_the_same_generated_name_are_an_error: forall k in 0..rangeindex :: (formatting.ToSnakeCase(protocol.Sequence[k].Name) == formatting.ToSnakeCase(step.Name) && protocol.Sequence[k].Name != step.Name ==> len(errorSink.Errors) > old(len(errorSink.Errors)))
 //@ func validateEnums$1
 //@   property C09
 //@   ensures non_enums_descend: typeof(node) != *EnumDefinition ==> called("dsl.(Visitor).VisitChildren")
